@@ -206,8 +206,10 @@ type cachedAgg struct {
 	tail, head time.Time
 }
 
+// Valid reports whether the written range [head, tail] lies inside the cached window
+// [c.tail, c.head]; only then does the cache hold every bar needed to re-aggregate.
 func (c *cachedAgg) Valid(tail, head time.Time) bool {
-	return tail.Unix() >= c.tail.Unix() && head.Unix() <= c.head.Unix()
+	return head.Unix() >= c.tail.Unix() && tail.Unix() <= c.head.Unix()
 }
 
 func (s *OnDiskAggTrigger) writeAggregates(
